@@ -481,10 +481,12 @@ extern "C" {
     fn setitimer(which: i32, new: *const Itimerval, old: *mut Itimerval) -> i32;
 }
 const ITIMER_REAL: i32 = 0;
-const ITIMER_VIRTUAL: i32 = 1;
+// ITIMER_PROF counts user AND system CPU time: a loop of read() calls that return 0 spends its time in the kernel
+const ITIMER_PROF: i32 = 2;
 pub const SIGABRT: i32 = 6;
 pub const SIGSEGV: i32 = 11;
 pub const SIGVTALRM: i32 = 26;
+pub const SIGPROF: i32 = 27;
 pub const SIGALRM: i32 = 14;
 pub const SIGKILL: i32 = 9;
 pub const SIGBUS: i32 = 7;
@@ -492,7 +494,7 @@ pub const SIGBUS: i32 = 7;
 fn set_timers(cpu_s: i64, wall_s: i64) {
     unsafe {
         let v = Itimerval { it_interval: Timeval { tv_sec: 0, tv_usec: 0 }, it_value: Timeval { tv_sec: cpu_s, tv_usec: 0 } };
-        setitimer(ITIMER_VIRTUAL, &v, std::ptr::null_mut());
+        setitimer(ITIMER_PROF, &v, std::ptr::null_mut());
         let w = Itimerval { it_interval: Timeval { tv_sec: 0, tv_usec: 0 }, it_value: Timeval { tv_sec: wall_s, tv_usec: 0 } };
         setitimer(ITIMER_REAL, &w, std::ptr::null_mut());
     }
@@ -572,6 +574,7 @@ fn signame(s: i32) -> &'static str {
         SIGABRT => "SIGABRT",
         SIGSEGV => "SIGSEGV",
         SIGVTALRM => "SIGVTALRM",
+        SIGPROF => "SIGPROF",
         SIGALRM => "SIGALRM",
         SIGKILL => "SIGKILL",
         SIGBUS => "SIGBUS",
@@ -579,11 +582,20 @@ fn signame(s: i32) -> &'static str {
     }
 }
 
+/// targets for which a case did not terminate (one entry per occurrence)
+static NO_TERMINATION: Mutex<Vec<String>> = Mutex::new(Vec::new());
+
 fn run_job(job: &Job, tier: &str, seed: u64, r: &mut Report) {
     use std::os::unix::process::ExitStatusExt;
     let exe = std::env::current_exe().unwrap();
     let mut from = job.from;
     while from < job.to {
+        // every non-terminating case costs its whole CPU budget: once a target has produced six of them the
+        // verdict is in, and the rest of that target's cases are skipped (and counted) rather than run
+        if NO_TERMINATION.lock().unwrap().iter().filter(|t| **t == job.target).count() >= 6 {
+            r.count("cases_skipped_after_repeated_no_termination", (job.to - from) as u64);
+            break;
+        }
         let mut child = Command::new(&exe)
             .args(["c03-worker", "--target", &job.target, "--from", &from.to_string(), "--to", &job.to.to_string(), "--tier", tier, "--seed", &seed.to_string()])
             .stdin(Stdio::null())
@@ -659,8 +671,9 @@ fn run_job(job: &Job, tier: &str, seed: u64, r: &mut Report) {
                     (format!("C03/{}:abort:allocation-of-claimed-size", job.target), format!("process aborted: a single allocation of {} bytes was requested for {} bytes supplied", sz, len))
                 } else if stderr.contains("has overflowed its stack") {
                     (format!("C03/{}:abort:stack-overflow", job.target), format!("process aborted by stack overflow ({})", signame(sig)))
-                } else if sig == SIGVTALRM {
-                    (format!("C03/{}:no-termination", job.target), format!("no return after {} CPU-seconds", CPU_BUDGET_S))
+                } else if sig == SIGVTALRM || sig == SIGPROF {
+                    NO_TERMINATION.lock().unwrap().push(job.target.clone());
+                    (format!("C03/{}:no-termination", job.target), format!("no return after {} CPU-seconds (user + system)", CPU_BUDGET_S))
                 } else if sig == SIGALRM {
                     r.inconclusive(format!("{} case {} ({}) hit the {} s wall-clock watchdog", job.target, idx, label, WALL_BUDGET_S));
                     from = idx + 1;
